@@ -11,7 +11,7 @@ static const char LAB[4] = { 'a', 'b', 'c', 'd' };      /* 'd' is only ever a pr
 
 typedef struct { spif_list_t l; spif_obj_t e[SMAX + 2]; char lab[SMAX + 2]; int n; } st_t;
 
-enum { K_APPEND, K_PREPEND, K_INSERT_AT, K_REMOVE, K_REMOVE_AT, K_REVERSE, K_DONE };      /* done(): the list gives up everything it holds and stays usable */
+enum { K_APPEND, K_PREPEND, K_INSERT_AT, K_REMOVE, K_REMOVE_AT, K_REVERSE, K_DONE, K_INSERT_NULL };     /* K_INSERT_NULL: insert_at(NULL object, i) - a NULL element is refused whatever the position */      /* done(): the list gives up everything it holds and stays usable */
 typedef struct { int k, x, i; } op_t;
 static op_t OPS[400]; static int NOPS;
 
@@ -24,6 +24,7 @@ static void build_ops(void)
     for (int i = -(S + 2); i <= S + 2; i++) OPS[NOPS++] = (op_t) { K_REMOVE_AT, 0, i };
     OPS[NOPS++] = (op_t) { K_REVERSE, 0, 0 };
     OPS[NOPS++] = (op_t) { K_DONE, 0, 0 };
+    for (int i = -(S + 2); i <= S + 2; i++) OPS[NOPS++] = (op_t) { K_INSERT_NULL, 0, i };
 }
 static void op_name(int i, char *b, size_t n)
 {
@@ -36,6 +37,7 @@ static void op_name(int i, char *b, size_t n)
     case K_REMOVE_AT: snprintf(b, n, "remove_at(%d)", o->i); break;
     case K_REVERSE: snprintf(b, n, "reverse()"); break;
     case K_DONE: snprintf(b, n, "done()"); break;
+    case K_INSERT_NULL: snprintf(b, n, "insert_at(NULL,%d)", o->i); break;
     }
 }
 static spif_list_t new_list(void)
@@ -60,7 +62,8 @@ static int new_len(st_t *s, op_t *o)
 static int enabled(void *vs, int op)
 {
     st_t *s = vs; op_t *o = &OPS[op];
-    if ((o->k == K_INSERT_AT || o->k == K_REMOVE_AT) && abs(o->i) > s->n + 2) return 0;     /* window(n) */
+    if ((o->k == K_INSERT_AT || o->k == K_REMOVE_AT || o->k == K_INSERT_NULL) && abs(o->i) > s->n + 2) return 0;     /* window(n) */
+    if (o->k == K_INSERT_NULL && CLS != 0) return 0;         /* only the array class documents a guard on the element (the linked classes store a NULL element; NULL is not an element value of the statement) */
     return new_len(s, o) <= S;
 }
 static const char *site(const char *m) { static char b[64]; snprintf(b, sizeof b, "%s.%s", CN[CLS], m); return b; }
@@ -151,6 +154,12 @@ static void apply(void *vs, int op)
                 memmove(s->e + i, s->e + i + 1, sizeof(s->e[0]) * (size_t) (s->n - i - 1)); memmove(s->lab + i, s->lab + i + 1, (size_t) (s->n - i - 1)); s->n--; }
         }
         break; }
+    case K_INSERT_NULL: { m = "insert_at";
+        int i = o->i < 0 ? o->i + s->n : o->i;
+        shape = i > s->n ? "NULL object, idx beyond the end" : "NULL object";
+        mc_set_shape(shape);
+        if (SPIF_LIST_INSERT_AT(s->l, (spif_obj_t) NULL, o->i)) FAIL(site(m), "model:not-refused", shape, "insert_at(NULL,%d) on %d elements was accepted", o->i, s->n);
+        break; }
     case K_DONE: { m = "done"; mc_set_shape(shape);
         spif_bool_t r = SPIF_LIST_DONE(s->l);
         if (!r) FAIL(site(m), "model:return", shape, "done returned FALSE");
@@ -225,6 +234,17 @@ static void probe(void *vs)
           if (i2 && i2 != i1) SPIF_ITERATOR_DEL(i2);
           SPIF_ITERATOR_DEL(i1);
       } }
+    /* a copy of an iterator taken after k steps yields exactly the remaining n-k elements (k = n: it is exhausted) */
+    for (int k = 0; k <= n; k++) {
+        spif_iterator_t it = SPIF_LIST_ITERATOR(l); if (!it) break;
+        for (int j = 0; j < k && SPIF_ITERATOR_HAS_NEXT(it); j++) (void) SPIF_ITERATOR_NEXT(it);
+        spif_iterator_t c = (spif_iterator_t) SPIF_ITERATOR_DUP(it);
+        if (!c || c == it) FAIL(site("iterator_dup"), "model:return", shape, "dup of an iterator returned %s", c ? "the iterator itself" : "NULL");
+        else { int got = 0, bad = 0; while (got <= n + 1 && SPIF_ITERATOR_HAS_NEXT(c)) { spif_obj_t g = SPIF_ITERATOR_NEXT(c); if (k + got < n && g != s->e[k + got]) bad = 1; got++; }
+            if (got != n - k || bad) FAIL(site("iterator_dup"), "model:position", shape, "a copy taken after %d of %d steps yielded %d elements%s, expected %d", k, n, got, bad ? " (wrong ones)" : "", n - k);
+            SPIF_ITERATOR_DEL(c); }
+        SPIF_ITERATOR_DEL(it);
+    }
     { spif_list_t d = (spif_list_t) SPIF_LIST_DUP(l);
       if (!d) FAIL(site("dup"), "model:return", shape, "dup returned NULL");
       else if (d == l) FAIL(site("dup"), "model:same-object", shape, "dup returned self");
